@@ -221,7 +221,10 @@ class C08(AdapterProp):
     level_text = ("Coq theorem c08_sim: for ALL inner readers (Section variables), all destination contents and lengths including 0, one "
                   "chain.read equals one std::io::Chain::read under the relation `reader is Some <-> !done_first`: same result, same "
                   "destination bytes, same calls on the same inner reader with the same argument, relation kept (hence all call schedules); "
-                  "corollaries c08_second_waits, c08_first_never_again; c08_pinned_refuted keeps the pre-fix body's counterexample. The std "
+                  "corollaries c08_second_waits, c08_first_never_again; stream level: c08_stream (a chain of any two readers that deliver a fixed "
+                  "remaining sequence in order is again such a reader, of first ++ second) and c08_all_of_first_then_second (read through a take "
+                  "with any schedule of destination lengths, 0 included: exactly the first min(n, total) bytes of first ++ second); "
+                  "c08_pinned_refuted keeps the pre-fix body's counterexample; GenEq/SrcC08.v restates c08_sim about the regenerated definition. The std "
                   "machine is a transcription of rust-src and is itself compared with the real std::io::Chain in every run.")
     nontrivial_rule = ("pairs of scripted readers (chunks, short reads, spurious Ok(0), errors and panics at every index, EOF) x destination-length "
                        "schedules over {0,1,2,3,8} (exhaustive for short histories) + random incl. lengths > 4096 and interleaved writes; every "
@@ -277,7 +280,10 @@ class C09(AdapterProp):
     level_text = ("Coq theorems c09_read (exact behaviour of one read for any inner object, both profiles), c09_sim (call for call equal to "
                   "std::io::Take for every reader honouring the Read contract, all limits up to u64::MAX), and the named facets "
                   "c09_exhausted_silent, c09_request_bound (inner is offered exactly min(remaining, len) bytes), c09_charge (Ok(n) charges n, Err "
-                  "charges 0), c09_dest_suffix_untouched. The std machine is compared with the real std::io::Take in every run.")
+                  "charges 0), c09_dest_suffix_untouched; stream level: c09_stream (over any inner reader that delivers a fixed remaining sequence in "
+                  "order and any schedule of destination lengths, 0 included, exactly the first min(n, available) bytes are delivered and every "
+                  "later byte stays unread in the inner reader); GenEq/SrcC09.v restates c09_sim about the regenerated definition. The std machine "
+                  "is compared with the real std::io::Take in every run.")
     nontrivial_rule = ("limits {0, below, equal, above the stream, u64::MAX} x scripted inner behaviour (chunks, short reads, spurious Ok(0), "
                        "errors/panics at every index, EOF) x destination-length schedules over {0,1,2,3,8} (exhaustive for short histories), random "
                        "incl. lengths up to 65536; every case runs the adapter AND the real std::io::Take; non-trivial = at least one read")
